@@ -1475,6 +1475,36 @@ fn c08_exposed_hash() {
     assert!(rh.words == 1 && rh.last == h1, "C08: Hash feeds exactly the board/side/step hash");
 }
 // ===========================================================================
+// C05 h5: the history leaf on the real list (BOUNDED).  Everything above uses the oracle.
+// ===========================================================================
+// @obl props=C05,C06,C19 tier=quick kind=harness-contract mem=4 est=60
+// @bounded history lists of length <= 4
+// @fns hash_history_contains_hash_twice List::iter Iter::next List::append
+// @clause for histories of length <= 4 and every hash h: hash_history_contains_hash_twice(history, h) <=> h occurs at least twice among the entries
+#[kani::proof]
+#[kani::unwind(7)]
+fn c05_twice_leaf() {
+    let n: usize = kani::any();
+    kani::assume(n <= 4);
+    let e: [u64; 4] = [kani::any(), kani::any(), kani::any(), kani::any()];
+    let h: u64 = kani::any();
+    let mut l: List<Zobrist> = List::new();
+    let mut occurrences = 0;
+    let mut k = 0;
+    while k < 4 {
+        if k < n {
+            l = l.append(zob(e[k]));
+            if e[k] == h {
+                occurrences += 1;
+            }
+        }
+        k += 1;
+    }
+    kani::cover!(occurrences == 2);
+    kani::cover!(occurrences == 3);
+    assert!(hash_history_contains_hash_twice(&l, &zob(h)) == (occurrences >= 2), "C05: 'already occurred twice' is decided by counting the recorded turn-start hashes");
+}
+// ===========================================================================
 // meta: the canary.  An `ensures` that is false on the real supported_pieces; it must FAIL.
 // If it ever passes, the pipeline is not checking anything and the whole run is UNDECIDED.
 // ===========================================================================
